@@ -168,3 +168,123 @@ def calls_in(x, acc=None):
         for v in x:
             calls_in(v, acc)
     return acc
+
+
+# ---------------------------------------------------------------------------------------------------------
+# "natural" rendering: the same AST written the way a programmer would - parentheses only where C's
+# precedence needs them, single statements without braces, else-if chains.  The canonical rendering above
+# (everything parenthesised and braced) and this one mean the same program; C15 compiles both.
+# ---------------------------------------------------------------------------------------------------------
+_PREC = {"*": 10, "/": 10, "%": 10, "+": 9, "-": 9, "<<": 8, ">>": 8, "<": 7, "<=": 7, ">": 7, ">=": 7, "==": 6, "!=": 6,
+         "&": 5, "^": 4, "|": 3, "&&": 2, "||": 1}
+
+
+def _prec(e):
+    k = e["k"]
+    if k == "bin":
+        return _PREC[e["op"]]
+    if k == "cond":
+        return 0
+    if k == "asg":
+        return -1
+    if k == "comma":
+        return -2
+    if k == "un" or (k == "inc" and e["pre"]):
+        return 11
+    return 12          # primary and postfix expressions
+
+
+def nexpr(e, minp=-3):
+    """expression text; parenthesised iff its precedence is below minp"""
+    k = e["k"]
+    if k == "bin":
+        p = _PREC[e["op"]]
+        l, r = nexpr(e["l"], p), nexpr(e["r"], p + 1)
+        # keep a blank where two operator characters would fuse (a - -b, a & &b, a + +b)
+        s = "%s %s %s" % (l, e["op"], r)
+    elif k == "un":
+        inner = nexpr(e["e"], 11)
+        s = e["op"] + ((" " + inner) if inner[:1] == e["op"][-1:] else inner)
+    elif k == "asg":
+        op = e["op"] if e["op"] == "=" else e["op"] + "="
+        s = "%s %s %s" % (nexpr(e["lhs"], 12), op, nexpr(e["e"], -1))
+    elif k == "inc":
+        t = "++" if e["d"] == 1 else "--"
+        s = (t + nexpr(e["lhs"], 12)) if e["pre"] else (nexpr(e["lhs"], 12) + t)
+    elif k == "cond":
+        s = "%s ? %s : %s" % (nexpr(e["c"], 1), nexpr(e["t"], -1), nexpr(e["e"], 0))
+    elif k == "comma":
+        s = "%s, %s" % (nexpr(e["l"], -2), nexpr(e["r"], -1))
+    elif k == "idx":
+        s = "%s[%s]" % (e.get("cname", e["arr"]), nexpr(e["i"]))
+    elif k == "call":
+        s = "%s(%s)" % (e["f"], ", ".join(nexpr(a, -1) for a in e["args"]))
+    else:
+        return expr(e)
+    return "(%s)" % s if _prec(e) < minp else s
+
+
+def _simple(ss):
+    return len(ss) == 1 and ss[0]["k"] in ("expr", "break", "continue", "return", "goto", "load", "store", "strobe", "csleep") and not ss[0].get("label")
+
+
+def nbody(ss, ind, then_of_if_with_else=False):
+    """a loop or branch body: one simple statement goes without braces"""
+    if _simple(ss) and not then_of_if_with_else:
+        return "\n" + nstmt(ss[0], ind + 1).rstrip("\n")
+    if _simple(ss):
+        return "\n" + nstmt(ss[0], ind + 1).rstrip("\n")
+    return "{\n" + "".join(nstmt(s, ind + 1) for s in ss) + "  " * ind + "}"
+
+
+def nstmt(s, ind=1):
+    p = "  " * ind
+    k = s["k"]
+    lab = (s["label"] + ": ") if s.get("label") else ""
+    p = p + lab
+    if k == "expr":
+        return p + nexpr(s["e"]) + ";\n"
+    if k == "decl":
+        if s["init"]["k"] != "none":
+            return p + "%s %s = %s;\n" % (s["ctype"], s["cname"], nexpr(s["init"], -1))
+        return p + "%s %s;\n" % (s["ctype"], s["cname"])
+    if k == "block":
+        return p + "{\n" + "".join(nstmt(x, ind + 1) for x in s["b"]) + "  " * ind + "}\n"
+    if k == "if":
+        r = p + "if (%s) %s" % (nexpr(s["c"]), nbody(s["t"], ind))
+        if s["e"] or s.get("force_else"):
+            # a then-branch that is itself an if without else would capture this else: keep its braces
+            if _simple(s["t"]) is False and len(s["t"]) == 1 and s["t"][0]["k"] == "if":
+                pass
+            if len(s["e"]) == 1 and s["e"][0]["k"] == "if" and not s["e"][0].get("label"):
+                r += "\n" + "  " * ind + "else " + nstmt(s["e"][0], ind).lstrip()
+                return r
+            r += "\n" + "  " * ind + "else " + nbody(s["e"], ind)
+        return r + "\n"
+    if k == "while":
+        return p + "while (%s) %s\n" % (nexpr(s["c"]), nbody(s["b"], ind))
+    if k == "do":
+        return p + "do %s while (%s);\n" % (nbody(s["b"], ind) if not _simple(s["b"]) else "\n" + nstmt(s["b"][0], ind + 1).rstrip("\n") + "\n" + "  " * ind, nexpr(s["c"]))
+    if k == "for":
+        return p + "for (%s; %s; %s) %s\n" % (nexpr(s["init"]) if s["init"]["k"] != "none" else "", nexpr(s["c"]) if s["c"]["k"] != "none" else "",
+                                             nexpr(s["upd"]) if s["upd"]["k"] != "none" else "", nbody(s["b"], ind))
+    if k == "switch":
+        r = p + "switch (%s) {\n" % nexpr(s["e"])
+        for c in s["cases"]:
+            if c["dflt"]:
+                r += "  " * (ind + 1) + "default:\n"
+            for v in c["vals"]:
+                r += "  " * (ind + 1) + "case %d:\n" % v
+            r += "".join(nstmt(x, ind + 2) for x in c["body"])
+        return r + "  " * ind + "}\n"
+    if k == "return":
+        return p + ("return %s;\n" % nexpr(s["e"]) if s["e"]["k"] != "none" else "return;\n")
+    if k == "load":
+        return p + "load(%s);\n" % nexpr(s["e"])
+    if k == "store":
+        return p + "store(%s);\n" % nexpr(s["e"])
+    return stmt(s, ind)
+
+
+def nstmts(ss, ind=1):
+    return "".join(nstmt(s, ind) for s in ss)
